@@ -77,6 +77,7 @@ func runC03(p *core.Program, r *core.Report) {
 	chainRules(p, r, "R18", "C10", []string{"C10.R14"}, "value literals are written from the printer's own renderings only")
 	// round 8: a memoised literal is written without asking the namer, so its package is never registered
 	chainRules(p, r, "R19", "C11", []string{"C11.R7"}, "the printers keep no memo: every rendering of a type goes through the namer")
+	c03R20(p, r)
 }
 
 // commitWitness: every definition of the boolean local v is the constant false, or the constant true at a point dominated
